@@ -29,6 +29,9 @@ ASSUMPTIONS = [
     "'delivery instant' = instant of the poll / redelivery event + Duration.from_seconds(delivery_latency); a delivery whose "
     "initiation instant equals the acknowledge instant is accepted (same-instant order is not specified)",
     "a consumer must have been subscribed at some moment of the initiation instant of a delivery it receives",
+    "schedule_redelivery may return None only if the message is not in flight, was dead-lettered by the call, or an earlier "
+    "granted redelivery timer for it has not fired yet (the harness tracks the granted events by identity); any other refusal of "
+    "an in-flight, un-acknowledged message is a violation ('never refused forever')",
     "Topic: script actions happen at distinct instants, so 'active at publish time' is unambiguous; replayed history deliveries "
     "(is_replay) are not counted",
     "EventLog/ConsumerGroup: consumers are sequential (one operation at a time per consumer) and commit what a real consumer "
@@ -74,7 +77,7 @@ def mq_strategy(tier):
     act = st.tuples(st.sampled_from([0, 0, 1, 1, 2, 4, 9]),
                     st.sampled_from(["pub", "pub", "pub", "poll", "poll", "poll", "poll", "sub", "unsub"]),
                     st.integers(0, 2)).map(list)
-    react = st.tuples(st.sampled_from(["ack", "ack", "ack", "nack", "nack", "drop", "timeout", "timeout", "none"]),
+    react = st.tuples(st.sampled_from(["ack", "ack", "ack", "nack", "nack", "drop", "timeout", "timeout", "timeout", "tunsub", "tunsub", "none"]),
                       st.sampled_from([0, 0, 0, 1, 3])).map(list)
     return st.fixed_dictionaries({
         "lat": st.sampled_from([0, 0, 1, 1, 2, 3, 4]), "rdelay": st.integers(0, len(RDELAY) - 1),
@@ -115,6 +118,8 @@ def ex_mq(case):
     member = {c: [] for c in range(ncons)}     # consumer -> list of (t, +1/-1)
     nrec = [0]
     npub = [0]
+    granted, outstanding, keep = {}, {}, []     # id(redelivery event) -> message id; message id -> timers not yet fired
+    state = {"d": 0, "lost": False, "redel": False, "refused": False, "nosub": 0}
 
     def in_dlq(mid):
         return any(m.id == mid for m in dlq.messages)
@@ -153,11 +158,31 @@ def ex_mq(case):
                 q.reject(mid, requeue=True)
             elif kind == "drop":
                 q.reject(mid, requeue=False)
-            elif kind == "timeout":
+            elif kind in ("timeout", "tunsub"):
+                was_in_flight = existed and getattr(m0.state, "value", None) == "delivered"
+                timers = outstanding.get(mid, 0)
                 ev = q.schedule_redelivery(mid)
                 extra = None if ev is None else ev.time.nanoseconds
                 if ev is not None:
                     out.append(ev)
+                    granted[id(ev)] = mid
+                    outstanding[mid] = timers + 1
+                    keep.append(ev)
+                elif was_in_flight and timers == 0 and q.get_message(mid) is not None and not state["refused"]:
+                    # in flight, un-acked, below the limit (still in the queue), no redelivery timer pending: must be granted
+                    state["refused"] = True
+                    r.add(f"{pre}/redelivery-request-refused",
+                          f"schedule_redelivery(message #{pid}) returned None at {self.now.nanoseconds} ns although the message is in "
+                          f"flight (attempt {k}, max_redeliveries={maxr}), not acknowledged, and no earlier redelivery timer is pending")
+                if kind == "tunsub" and ev is not None:
+                    # every consumer goes away before the timer fires; this one comes back after it and polls
+                    for c in range(ncons):
+                        if cons[c] in q.downstream_entities():
+                            q.unsubscribe(cons[c])
+                            member[c].append((self.now.nanoseconds, -1))
+                    back = ev.time + (1 + _i(delay, 0, 8)) / 512
+                    out.append(Event(time=back, event_type="resub", target=actor, context={"c": self.idx}))
+                kind = "timeout"
             acts.append((self.now.nanoseconds, kind, pid, k, q.get_message(mid) is not None, in_dlq(mid), extra, existed))
             if autopoll:
                 out.append(Event(time=self.now, event_type="poll", target=q))
@@ -167,9 +192,14 @@ def ex_mq(case):
 
     class Actor(Entity):
         def handle_event(self, event):
+            now = self.now.nanoseconds
+            if event.event_type == "resub":
+                c = _i(event.context.get("c")) % ncons
+                q.subscribe(cons[c])
+                member[c].append((now, 1))
+                return [Event(time=self.now, event_type="poll", target=q)]
             i = event.context["i"]
             _, kind, arg = script[i][:3]
-            now = self.now.nanoseconds
             if kind == "pub":
                 pid = npub[0]
                 npub[0] += 1
@@ -206,7 +236,6 @@ def ex_mq(case):
         sim.schedule(Event(time=Instant(t), event_type="act", target=actor, context={"i": i}))
 
     inits = []                        # initiation instants of deliveries the queue accounted for
-    state = {"d": 0, "lost": False, "redel": False}
 
     def per_message_check(now):
         if state["lost"]:
@@ -225,6 +254,11 @@ def ex_mq(case):
             if tot > state["d"]:
                 inits.extend([event.time.nanoseconds] * (tot - state["d"]))
                 state["d"] = tot
+            if id(event) in granted:
+                mid_f = granted.pop(id(event))
+                outstanding[mid_f] = max(0, outstanding.get(mid_f, 0) - 1)
+                if q.consumer_count == 0:
+                    state["nosub"] += 1
             if event.event_type == "message_redelivery" and not state["redel"]:
                 mid = event.context.get("message_id")
                 m = q.get_message(mid)
@@ -323,8 +357,8 @@ def ex_mq(case):
     redeliv = sum(1 for x in receipts if (x[3] or 0) > 1)
     r.nontrivial = redeliv > 0 and dead > 0
     r.labels += [f"latency={int(L > 0)}", f"received={int(bool(receipts))}", f"redelivered={int(redeliv > 0)}",
-                 f"dead-lettered={int(dead > 0)}", f"acked={int(bool(acked_at))}", f"status={status}"]
-    r.target = float(min(redeliv, 5) + min(dead, 3))
+                 f"dead-lettered={int(dead > 0)}", f"acked={int(bool(acked_at))}", f"timer-without-subscriber={int(state['nosub'] > 0)}", f"status={status}"]
+    r.target = float(min(redeliv, 5) + min(dead, 3) + 3 * min(state["nosub"], 3))
     r.observed = {"receipts": receipts[:20], "stats": [s.messages_published, s.messages_delivered, s.messages_redelivered,
                                                          s.messages_acknowledged, s.messages_dead_lettered]}
     return r
@@ -729,7 +763,8 @@ OBLIGATIONS = [
     Obligation("mq", mq_strategy, ex_mq, {"quick": 2500, "thorough": 100000},
                "MessageQueue + DeadLetterQueue in a real Simulation: an actor publishes, polls, subscribes and unsubscribes 1-3 consumer "
                "entities at generated instants (1/512 s grid); every received delivery triggers the next generated reaction (ack / "
-               "reject+requeue / reject / schedule_redelivery / nothing, immediately or after a delay; optionally followed by a poll); "
+               "reject+requeue / reject / schedule_redelivery / schedule_redelivery followed by all consumers unsubscribing until after the "
+               "timer fired, then re-subscribe + poll / nothing, immediately or after a delay; optionally followed by a poll); "
                "delivery latency 0..8 ticks or 1 ms, redelivery limit 0-3, capacity none/1-5. Judged on the consumer-side log. "
                "non-trivial = at least one redelivery was received and at least one message was dead-lettered"),
     Obligation("topic", topic_strategy, ex_topic, {"quick": 1500, "thorough": 60000},
